@@ -334,3 +334,218 @@ def connect_post(S):
 
 
 c.ensures(connect_post, "control-stream-wraps-the-new-socket-is-limited-by-the-client's-throttle-and-the-connect-is-bounded-by-connection_timeout")
+
+
+# ------------------------------------------------------------------------------------ file branch of Client.upload / Client.download
+from pyvc.core import Unsupported  # noqa: E402
+from pyvc.values import Model  # noqa: E402
+
+
+class LocalFile(Model):
+    """a local file handed out by client.path_io.open(...): reads come from `reader` (upload), writes go to `written`"""
+
+    model_name = "localfile"
+
+    def __init__(self, path, mode, content=None):
+        super().__init__()
+        self.path, self.mode = path, mode
+        self.reader = Reader("localfile", incoming=content) if content is not None else None
+        self.written = z3.StringVal("")
+        self.closed = False
+
+    def getattr(self, i, name):
+        if name == "iter_by_block":
+
+            def ibb(i2, a, k):
+                n = a[0]
+                itr_cls = i2.modules[COMMON].attrs["AsyncStreamIterator"]
+                return i2.call(itr_cls, [Builtin("read", lambda i3, a3, k3: i3.call(i3.getattr_(self.reader, "read"), [n], {}))], {})
+
+            return Builtin("iter_by_block", ibb)
+        if name == "write":
+
+            def write(i2, a, k):
+                def run():
+                    i2.suspend("localfile.write")
+                    if i2.ctx.choose(2, "local-write-outcome") == 1:
+                        i2.throw("OSError")
+                    self.written = z3.Concat(self.written, a[0].t)
+
+                return Coro(run, "localfile.write")
+
+            return Builtin("localfile.write", write)
+        raise Unsupported("localfile." + name)
+
+
+class Ctx(Model):
+    """async context manager stand-in: __aenter__ gives `value`; __aexit__ records how it was left"""
+
+    model_name = "ctxmgr"
+
+    def __init__(self, kind, value, on_exit, on_enter=None):
+        super().__init__()
+        self.kind, self.value, self.on_exit, self.on_enter = kind, value, on_exit, on_enter
+
+    def getattr(self, i, name):
+        if name == "__aenter__":
+
+            def en(i2, a, k):
+                def run():
+                    i2.suspend(self.kind + ".__aenter__")
+                    i2.ctx.event("enter", self.kind)
+                    if self.on_enter:
+                        self.on_enter()
+                    return self.value
+
+                return Coro(run, self.kind + ".__aenter__")
+
+            return Builtin(self.kind + ".__aenter__", en)
+        if name == "__aexit__":
+
+            def ex(i2, a, k):
+                def run():
+                    self.on_exit(i2, a[1] if len(a) > 1 else None)
+                    i2.ctx.event("exit", self.kind, a[1] if len(a) > 1 else None)
+                    return None
+
+                return Coro(run, self.kind + ".__aexit__")
+
+            return Builtin(self.kind + ".__aexit__", ex)
+        raise Unsupported("ctx." + name)
+
+
+def make_file_branch_setup(direction):
+    meth = {"up": "upload", "down": "download"}[direction]
+
+    def setup(u):
+        it = u.it
+        mod = it.modules[CLIENT]
+        fn = [n for n in ast.walk(mod.tree) if isinstance(n, ast.AsyncFunctionDef) and n.name == meth][0]
+        withs = [n for n in ast.walk(fn) if isinstance(n, ast.AsyncWith) and any(isinstance(x, ast.AsyncFor) for x in n.body)]
+        if len(withs) != 1:
+            raise Unsupported(f"Client.{meth}: expected one `async with <file>, <stream>:` around the copy loop")
+        node = withs[0]
+        content = fresh("bytes", "content")
+        opened, streams = [], []
+        from contracts.c09_client import mk_path
+
+        local = mk_path(u, "local", "/")
+        remote = mk_path(u, "remote", ["", "/"][u.choose(2, "remote-absolute")])
+        w = Writer("data")
+        stream = Obj(u.cls(COMMON, "ThrottleStreamIO"), tag="stream")
+        stream.fields.update(reader=Reader("data", incoming=content.t if direction == "down" else None), writer=w, read_timeout=None, write_timeout=None, throttles={})
+
+        class LocalIO(Model):
+            model_name = "local_path_io"
+
+            def getattr(self, i, name):
+                if name == "open":
+
+                    def op(i2, a, k):
+                        f = LocalFile(a[0], k.get("mode", a[1] if len(a) > 1 else "rb"), content.t if direction == "up" else None)
+
+                        def closed(i3, exc):
+                            f.closed = True
+
+                        # (the file is opened by __aenter__ of the context object, as in pathio.AsyncPathIOContext)
+                        return Ctx("file", f, closed, on_enter=lambda: opened.append(f))
+
+                    return Builtin("path_io.open", op)
+                raise Unsupported("path_io." + name)
+
+        def get_stream(i, a, k):
+            rec = {"args": a[1:], "kwargs": k, "left": None}
+            streams.append(rec)
+
+            def left(i2, exc):
+                rec["left"] = "close" if exc is not None else "finish"
+
+            return Ctx("stream", stream, left)
+
+        cl = mk_client(u)
+        gs = Builtin("Client.get_stream", get_stream)
+        gs.is_method = True
+        cl.cls = type(cl.cls)(cl.cls.name, [cl.cls], {"get_stream": gs})
+        cl.fields["path_io"] = LocalIO()
+        bs = fresh("int", "block_size")
+        u.assume(bs.t >= 1)
+        env = Env(mod.env)
+        env.vars.update(self=cl, source=local if direction == "up" else remote, destination=remote if direction == "up" else local, block_size=bs)
+
+        def run(i, a, k):
+            def body():
+                i.exec(node, env, f"Client.{meth}.<locals>")
+
+            return Coro(body, f"{meth}-file-branch")
+
+        return Builtin(f"Client.{meth}/file-branch", run), [], {}, {"content": content, "opened": opened, "streams": streams, "stream": stream, "writer": w, "local": local, "remote": remote, "direction": direction, "self": cl}
+
+    return setup
+
+
+def branch_loop_inv(S):
+    us = S.it.ctx.unit_state
+    d = us.vars["direction"]
+    op = us.vars["opened"]
+    if len(op) != 1:
+        return False
+    f = op[0]
+    if d == "up":
+        r, wr = f.reader, us.vars["writer"].written
+    else:
+        r, wr = us.vars["stream"].fields["reader"], f.written
+    return z3.And(wr == r.consumed, z3.Concat(r.consumed, r.incoming) == us.vars["content"].t, z3.BoolVal(not f.closed))
+
+
+def branch_loop_havoc(it, env):
+    us = it.ctx.unit_state
+    d = us.vars["direction"]
+    f = us.vars["opened"][0]
+    r = f.reader if d == "up" else us.vars["stream"].fields["reader"]
+    r.incoming, r.consumed = fresh("bytes", "inc").t, fresh("bytes", "cons").t
+    if d == "up":
+        us.vars["writer"].written = fresh("bytes", "wr").t
+    else:
+        f.written = fresh("bytes", "wr").t
+
+
+def branch_post(S):
+    """one local file (upload: 'rb' at source; download: 'wb' at destination) and one data stream (STOR <destination> /
+    RETR <source>, expecting 1xx, from offset 0); on a normal exit every byte went across once, in order, the file is
+    closed and the stream was left through finish() (= the completion reply was awaited)"""
+    it = S.it
+    d = S.vars["direction"]
+    op, st = S.vars["opened"], S.vars["streams"]
+    if len(op) != 1 or len(st) != 1:
+        return False
+    f, rec = op[0], st[0]
+    want_mode = "rb" if d == "up" else "wb"
+    if f.mode != want_mode or f.path is not S.vars["local"] or not f.closed or rec["left"] != "finish":
+        return False
+    off = rec["kwargs"].get("offset", 0)
+    if not (isinstance(off, int) and off == 0) or len(rec["args"]) != 2 or rec["args"][1] != "1xx":
+        return False
+    sp = SpecInterp(it)
+    verb = "STOR " if d == "up" else "RETR "
+    want_cmd = sp.value(f'"{verb}" + str(remote)', S)
+    moved = S.vars["writer"].written if d == "up" else f.written
+    return z3.And(it.unbox(rec["args"][0]).t == want_cmd.t, moved == S.vars["content"].t)
+
+
+def branch_raise(S):
+    """whatever goes wrong, the local file is closed and the data stream is not left through finish()"""
+    op, st = S.vars["opened"], S.vars["streams"]
+    return all(f.closed for f in op) and all(r["left"] in (None, "close") for r in st) and all(r["left"] == "close" for r in st if any(e[0] == "enter" and e[1] == "stream" for e in S.it.ctx.events))
+
+
+from pyvc.unit import SpecInterp  # noqa: E402
+
+for _d, _m in (("up", "upload"), ("down", "download")):
+    c = contract(CLIENT, f"Client.{_m}", props=["C01", "C09"], name=f"Client.{_m}/file-branch")
+    c.setup = make_file_branch_setup(_d)
+    c.env_hooks = {"block_loop": LoopSpec(invariants=[("moved-so-far-is-exactly-what-was-read", branch_loop_inv)], havoc=branch_loop_havoc)}
+    c.ensures(branch_post, "one-file-one-stream-right-mode-right-command-every-byte-once-in-order-closed-and-finished")
+    for _e in ("OSError", "CancelledError", "ConnectionResetError"):
+        c.raises_(_e, branch_raise, "file-closed-and-stream-abandoned-not-finished")
+    c.cancellable = True
+    c.assumptions.append(f"block contract: the `async with self.path_io.open(...), self.{_m}_stream(...)` statement (with the copy loop inside) is extracted from the AST of the real Client.{_m}; get_stream and path_io.open are stand-ins that record their arguments (get_stream has its own contract)")
